@@ -3,11 +3,31 @@ object a field it does not declare is rejected by the server deserializer (namin
 and accepted by the client deserializer with exactly the value of the document without it —
 under every generator configuration (the exhaustive switch must not change this)."""
 import json
+import re
 
 import model as M
 
 EXTRA_NAME = "zzUndeclared"
 EXTRA_VALUES = [True, None, [1, {"a": None}], {"type": "x"}, "s"]
+
+
+def _words(n):
+    return [w for w in re.split(r"[-_]|(?<=[a-z0-9])(?=[A-Z])", n) if w]
+
+
+def look_alikes(declared):
+    """names that normalise to a declared member's name without being one: the other two of the
+    three spellings Conjure admits (camelCase / kebab-case / snake_case), and case variants"""
+    out = []
+    for n in declared:
+        w = [x.lower() for x in _words(n)]
+        if not w:
+            continue
+        cands = [w[0] + "".join(x.capitalize() for x in w[1:]), "-".join(w), "_".join(w), "".join(x.capitalize() for x in w), n.upper(), n.lower(), n + "_", "_" + n, n + " ", "r#" + n]
+        for c in cands:
+            if c not in declared and c not in out:
+                out.append(c)
+    return out
 
 
 def injections(model, t, doc, path="$", depth=0):
@@ -59,6 +79,11 @@ def injections(model, t, doc, path="$", depth=0):
     return out
 
 
+def _injected_name(where):
+    m = re.search(r"member '(.*)', a look-alike", where)
+    return m.group(1) if m else EXTRA_NAME
+
+
 def _fill(doc, value):
     """replace the placeholder value of the injected member"""
     if isinstance(doc, dict):
@@ -89,6 +114,15 @@ def run(a, rep, TypesBuild, tref):
                     if vi > 0 and "(last member)" in where and not thorough:
                         continue
                     cases.append((M.dumps(_fill(nd, v)), d, where))
+        # undeclared members whose names look like declared ones (root object, first position)
+        if kind == "object":
+            d0 = [x for x in model.docs(t) if model.valid(t, x)][:1]
+            declared = [f["fieldName"] for f in model.definition(t)["fields"]]
+            for d in d0:
+                for alike in look_alikes(declared)[: (40 if thorough else 12)]:
+                    nd = {alike: "injected"}
+                    nd.update(d)
+                    cases.append((M.dumps(nd), d, "$ (member %r, a look-alike of a declared name)" % alike))
         if not cases:
             continue
         rep.states += len(cases)
@@ -123,8 +157,8 @@ def run(a, rep, TypesBuild, tref):
                 elif side in ("s", "S"):
                     if r["ok"]:
                         rep.violation(sig("server-accepted-unknown-field"), "%s [%s]: the %s deserializer accepts %s (undeclared member at %s) as %s" % (label, cname, where_side, text, where, r.get("reser")), case)
-                    elif EXTRA_NAME not in (r.get("err") or ""):
-                        rep.violation(sig("server-error-does-not-name-field"), "%s [%s]: %s rejected by the %s deserializer with %r, which does not name %s" % (label, cname, text, where_side, r.get("err"), EXTRA_NAME), case)
+                    elif _injected_name(where) not in (r.get("err") or ""):
+                        rep.violation(sig("server-error-does-not-name-field"), "%s [%s]: %s rejected by the %s deserializer with %r, which does not name %s" % (label, cname, text, where_side, r.get("err"), _injected_name(where)), case)
                     else:
                         rep.outcome("server:rejected-naming-field")
                 else:
